@@ -40,6 +40,13 @@ static Step gen_op(Rng &r)
 {
 	Step s;
 	int k = (int)r.below(10);
+	if (r.chance(1, 12)) {
+		// the builder is used for what it is for: generating leaves its maps as they are
+		s = Step("GENERATE");
+		s.set("hdr", 0);
+		s.set("name", 0);
+		return s;
+	}
 	if (r.chance(1, 14)) {
 		// a refused call that leaves the builder's error flag set (only meaningful on the builder target)
 		s = Step("ERRFLAG");
@@ -83,7 +90,7 @@ static void typedmap_gen(Rng &r, Plan &p, Tier tier, uint64_t index)
 		Step s = gen_op(r);
 		s.uid = (uint64_t)i + 1;
 		if (faults && r.chance(1, 3))
-			s.set("failalloc", r.range(1, 6));
+			s.set("failalloc", r.chance(1, 2) ? r.range(1, 6) : r.range(1, 30)); // (never inside jansson's parser or serializer)
 		p.steps.push_back(s);
 	}
 }
@@ -174,7 +181,26 @@ static void run_op(MapRun &mr, const Step &s, size_t si)
 	json_t *before = NULL;
 	bool dontcare_rc = false;
 
+	if (s.op == "GENERATE") {
+		mr.steps_done++;
+		if (!mr.t.b)
+			return;
+		char *t;
+		{
+			Armed a;
+			t = jwt_builder_generate(mr.t.b);
+		}
+		ctx.logf("GENERATE -> %s", t ? "token" : "NULL");
+		if (t)
+			sim_harness_free(t);
+		else
+			jwt_builder_error_clear(mr.t.b);
+		ctx.sig(strf("C15|%s|GENERATE|%d", mr.where, t != NULL));
+		compare_state(mr, si, "GENERATE");
+		return;
+	}
 	if (s.op == "ERRFLAG") {
+		mr.steps_done++;
 		if (!mr.t.b)
 			return;
 		int kind = (int)s.I("kind");
@@ -402,6 +428,26 @@ static void run_op(MapRun &mr, const Step &s, size_t si)
 			if (!noname)
 				json_object_del(minus, name);
 			ok = json_equal(snap, m) || (rc != JWT_VALUE_ERR_NONE && (json_equal(snap, before) || json_equal(snap, minus)));
+			if (!ok && rc != JWT_VALUE_ERR_NONE && s.op == "SET" && noname && json_is_object(snap)) {
+				// a whole-object merge that reported the failure may have stopped half way: every member of the map is
+				// then either what it was or what the fault-free merge makes it, and nothing that was there is gone
+				ok = true;
+				const char *k;
+				json_t *v;
+				json_object_foreach(snap, k, v)
+				{
+					json_t *b0 = json_object_get(before, k), *m0 = json_object_get(m, k);
+					if (!((b0 && json_equal(b0, v)) || (m0 && json_equal(m0, v))))
+						ok = false;
+				}
+				json_object_foreach(before, k, v)
+				{
+					if (!json_object_get(snap, k))
+						ok = false;
+				}
+				if (ok)
+					ctx.count("probe:whole_object_merge_stopped_half_way_under_alloc_fault");
+			}
 			json_decref(minus);
 			if (!ok)
 				ctx.violation("C15", "state-under-fault", strf("%s:%s", mr.where, s.op.c_str()),
@@ -463,6 +509,7 @@ static void typedmap_exec(Ctx &ctx)
 	const Plan &plan = *ctx.plan;
 	int target = (int)plan.C("target");
 	ctx.nontrivial = plan.steps.size() >= 2;
+	g_alloc.spare_jansson = true;
 	MapRun mr;
 	mr.ctx = &ctx;
 	mr.model[0] = json_object();
